@@ -52,8 +52,9 @@ int backup_copy_file(const char *filename, const std::vector<UINT8> &data);
  * This calculates the MD5 over the file and writes the MD5 to
  * FILENAME+UNC_BACKUP_MD5_SUFFIX.*
  * This should be called after the file was written to disk.
- * We really don't care if it fails, as the MD5 just prevents us from backing
- * up a file that uncrustify created.
+ * The MD5 prevents us from backing up a file that uncrustify created, i.e.
+ * from overwriting the backup of the original with our own output.
+ * If it cannot be written, the program exits with EX_IOERR.
  *
  * This should be called after the file was written to disk.
  * It will be read back and an md5 will be calculated over it.
